@@ -1,6 +1,6 @@
 """C05 on the whole-program machine: theorems in coq/props/C05.v, whole-trace correspondence, monitor(s) ['C05']"""
 from harness import watch
-from harness import machine_prop
+from harness import machine_prop, scopecorr
 from harness.props._machine_common import TRUSTED, ASSUMPTIONS, RULE  # noqa
 
 ID = 'C05'
@@ -286,17 +286,26 @@ def run(ctx):
     # scopes around borrowed resources (acquiring and releasing suspend, also while a scope is being interrupted):
     # "promptly" for until-blocks is C07's rule (block left at the time its notification fires)
     machine_prop.run(ctx, [('resources', 60, 1200, {})], MONITORS + ['C05s', machine_prop.unclassified('C07')])
+    # protocol layer, the model the promptness theorems (ScopePrompt.v) are about: label sequences extracted from the
+    # real Scope, replayed through ScopeProto.v (Tick is only enabled in the model when no cancellation of the scope is
+    # pending, so a real scope that lets time pass after a child failed is a label sequence the model refuses)
+    scopecorr.run(ctx, kinds=('plain',), n=ctx.n(150, 2500))
 
 
 def search(ctx):
     # something broke (a proof obligation or the correspondence): look for a concrete failing input
     fams = [(p, max(nq * 6, 2000), max(nt, 20000) // 2, kw) for p, nq, nt, kw in FAMILIES]
     machine_prop.run(ctx, fams, MONITORS)
+    scopecorr.search(ctx, kinds=('plain',))
 
 
 def replay(ctx, rp):
+    if rp.get('family') == scopecorr.FAMILY:
+        return scopecorr.replay(ctx, rp)
     return machine_prop.replay(ctx, rp, MONITORS)
 
 
 def shrink(ctx, failure):
+    if failure.family == scopecorr.FAMILY:
+        return scopecorr.shrink(ctx, failure)
     return machine_prop.shrink(ctx, failure, MONITORS)
